@@ -261,6 +261,13 @@ def gen0(tier, rng, shard, nshards):
                 yield bytes([a, b]), bytes([b, a])
         for _ in range(n_rand):
             yield _rand_bytes(rng, 16), _rand_bytes(rng, 16)
+        # byte strings that spell words some consumer of the token stream treats specially (variant names, booleans, keywords,
+        # quoted-looking values): as values they are data like any other
+        for wd in (b"default", b"Default", b"true", b"false", b"set", b"print", b"header", b"}", b"{", b";", b'""', b'"x"', b'";"',
+                   b'"x"; set jitter "9"', b"#", b"None", b"", b"\x00", b"a\x00"):
+            yield wd, b"v"
+            yield b"k", wd
+            yield wd, wd
 
     e = 0
     for i, (tpl, _paths) in enumerate(TEMPLATES_DICT):
